@@ -5,9 +5,9 @@ from lib import core
 from lib.core import Engine, Case
 
 H = core.HARNESS
-INC = ['codec_w_ustar.c', 'codec_w_v7tar.c', 'codec_w_gnutar.c', 'codec_w_odc.c', 'codec_w_newc.c',
+INC = ['codec_w_pax.c', 'codec_w_ustar.c', 'codec_w_v7tar.c', 'codec_w_gnutar.c', 'codec_w_odc.c', 'codec_w_newc.c',
        'codec_w_ar.c', 'codec_r_tar.c', 'codec_r_cpio.c']
-REPO_DEPS = ['libarchive/archive_write_set_format_ustar.c', 'libarchive/archive_write_set_format_v7tar.c',
+REPO_DEPS = ['libarchive/archive_write_set_format_pax.c', 'libarchive/archive_write_set_format_ustar.c', 'libarchive/archive_write_set_format_v7tar.c',
              'libarchive/archive_write_set_format_gnutar.c', 'libarchive/archive_write_set_format_cpio_odc.c',
              'libarchive/archive_write_set_format_cpio_newc.c', 'libarchive/archive_write_set_format_ar.c',
              'libarchive/archive_read_support_format_tar.c', 'libarchive/archive_read_support_format_cpio.c']
@@ -77,6 +77,24 @@ def fields_for_atol(rng):
     for _ in range(6):
         out.append(bytes(rng.choice(b'01234567 89abcdefABCDEF\0-\t\x80\xff') for _ in range(rng.choice([1, 6, 8, 12, 23]))))
     return out
+
+
+def gen_pax_cases(rng, tier):
+    """Record lengths around every power of ten (the self-referential length prefix)."""
+    lens = sorted(set([1, 2, 3, 4, 5, 6, 7, 8, 9, 10, 11] + [p + d for p in (10, 100, 1000, 10000) for d in range(-8, 5)]))
+    reps = 1 if tier == 'quick' else 6
+    for r in range(reps):
+        ops = []
+        for total in lens:
+            # total = bytes of " key=value\n": 1 + k + 1 + v + 1
+            k = rng.choice([1, 4, 9, 17])
+            v = total - 3 - k
+            if v < 0:
+                k, v = max(1, total - 3), 0
+            key = bytes(rng.choice(b'abcdefgXYZ.') for _ in range(k))
+            val = bytes(rng.randrange(256) for _ in range(v))
+            ops.append(f'paxrec {key.hex()} {val.hex() if val else "-"}')
+        yield Case(f'paxrec-{r}', ops)
 
 
 def gen_atol_cases(rng, tier):
@@ -388,6 +406,7 @@ class Codec(Engine):
         if not self.bulk:
             yield from gen_fmt_cases(rng, tier)
             yield from gen_atol_cases(rng, tier)
+            yield from gen_pax_cases(rng, tier)
         if self.mode == 'c02':
             for c in gen_c02_cases(rng, tier):
                 if self.bulk or rng.random() < (0.1 if tier == 'quick' else 0.3):
